@@ -22,6 +22,20 @@ class Return(Exception):
         self.v = v
 
 
+LOOP_BOUND = 80
+
+
+class Break(Exception):
+    def __init__(self, label, v):
+        self.label = label
+        self.v = v
+
+
+class Continue(Exception):
+    def __init__(self, label):
+        self.label = label
+
+
 class NeedChoice(Exception):
     """An undetermined comparison of a symbolic value: the driver (`explore`) forks on it."""
     def __init__(self, key):
@@ -182,11 +196,33 @@ class Evaluator:
         if k == "block":
             env = Env(env) if isinstance(env, Env) else Env(_as_env(env))
             v = ("unit",)
-            for s in e.get("stmts", []):
-                self.stmt(s, env)
-            if "expr" in e:
-                return self.ev(e["expr"], env)
+            try:
+                for s in e.get("stmts", []):
+                    self.stmt(s, env)
+                if "expr" in e:
+                    return self.ev(e["expr"], env)
+            except Break as br:
+                if e.get("label") and br.label == e["label"]:
+                    return br.v            # `break 'label v` out of a labelled block (an inlined helper's `return v`)
+                raise
             return v
+        if k == "loop":
+            # a loop whose exit conditions are decided by the (concrete or oracle-chosen) values: iterated, with a bound
+            for _ in range(LOOP_BOUND):
+                try:
+                    self.ev(e["body"], env)
+                except Break as br:
+                    if br.label is None or br.label == e.get("label"):
+                        return br.v
+                    raise
+                except Continue as ct:
+                    if ct.label is not None and ct.label != e.get("label"):
+                        raise
+            raise Unrecognised(f"loop at line {e.get('ln', '?')} not finished after {LOOP_BOUND} iterations")
+        if k == "break":
+            raise Break(e.get("label"), self.ev(e["e"], env) if isinstance(e.get("e"), dict) else ("unit",))
+        if k == "continue":
+            raise Continue(e.get("label"))
         if k in ("ref",):
             return self.ev(e["e"], env)
         if k == "un":
@@ -215,6 +251,10 @@ class Evaluator:
                         if not eq:
                             break
                     return ("bool", eq if op == "Eq" else not eq)
+                if (l[0] in ("bin", "not") or r[0] in ("bin", "not")) and "cmp" in self.atoms:
+                    got = self.atoms["cmp"]([op, l, r])
+                    if got is not None:
+                        return got
                 if l[0] == "sym" or r[0] == "sym":
                     return ("bool", self._values_equal(l, r) if op == "Eq" else not self._values_equal(l, r))
                 if l[0] in ("str", "int", "enum", "bool") and l[0] == r[0]:
@@ -223,6 +263,10 @@ class Evaluator:
                 if l[0] in ("some", "none") and r[0] in ("some", "none"):
                     eq = l == r
                     return ("bool", eq if op == "Eq" else not eq)
+                if "cmp" in self.atoms:
+                    got = self.atoms["cmp"]([op, l, r])
+                    if got is not None:
+                        return got
                 raise Unrecognised(f"comparison of {l} and {r}")
             if op in ("Lt", "Le", "Gt", "Ge"):
                 l, r = self.ev(e["l"], env), self.ev(e["r"], env)
